@@ -7,6 +7,7 @@ import (
 	"net"
 	"net/netip"
 	"reflect"
+	"strings"
 )
 
 // vgenLabelStack draws a label stack. single forces one label (used when a Prefix-SID attribute
@@ -19,22 +20,32 @@ func vgenLabelStack(r *rand.Rand, c *vgenNLRICtx, maxLabels int) MPLSLabelStack 
 		return *NewMPLSLabelStack(WITHDRAW_LABEL)
 	}
 	n := 1
-	if !c.single && vgenChance(r, 3) {
+	if !c.single && (vgenChance(r, 3) || strings.HasPrefix(c.quirk, "label-sentinel")) {
 		n = 2 + r.IntN(3)
 	}
 	if n > maxLabels {
 		n = maxLabels
 	}
-	sentinel := c.quirk == "label-sentinel-in-stack" && vgenBool(r)
+	// A non-bottom entry 0 / 0x80000 encodes as 0x000000 / 0x800000, the withdraw pseudo labels.
+	// As the first entry this is ambiguous on the wire without knowing reach from unreach
+	// (quirk label-sentinel-first-in-stack); further down the stack it is not (…-inside-stack).
 	ls := make([]uint32, 0, n+2)
 	for i := 0; i < n; i++ {
 		l := vgenLabel(r)
 		if i < n-1 {
-			for !sentinel && (l == 0 || l == 0x80000) {
-				l = vgenLabel(r)
+			want := ""
+			if i == 0 {
+				want = "label-sentinel-first-in-stack"
+			} else {
+				want = "label-sentinel-inside-stack"
 			}
-			if l == 0 || l == 0x80000 {
-				c.tag("quirk:label-sentinel-in-stack")
+			if c.quirk == want && vgenBool(r) {
+				l = vgenPick[uint32](r, 0, 0x80000)
+				c.tag("quirk:" + want)
+			} else {
+				for l == 0 || l == 0x80000 {
+					l = vgenLabel(r)
+				}
 			}
 		}
 		ls = append(ls, l)
